@@ -531,8 +531,11 @@ class ITerm2Image(GraphicsImage, metaclass=ITerm2ImageMeta):
             lines = max(fmt[-1], self.rendered_height)
             r_width = self.rendered_width
             erase_and_move_cursor = ERASE_CHARS % r_width + CURSOR_FORWARD % r_width
+            # The unformatted render must have the rendered height; vertical padding is
+            # added by `_format_render()`
+            r_height = self.rendered_height
             first_frame = self._format_render(
-                f"{erase_and_move_cursor}\n" * (lines - 1) + erase_and_move_cursor,
+                f"{erase_and_move_cursor}\n" * (r_height - 1) + erase_and_move_cursor,
                 *fmt,
             )
             print(
